@@ -23,7 +23,7 @@ def run(ctx):
     nd = ctx.record("nodes-arith", "nodes", ["-n", 6000 if ctx.thorough else 400, "-profile", "arith", "-seed", ctx.seed * 100 + 68])
     ctx.validate("nodes-arith-validate", "trace/Trace_Nodes.tla", "trace/Trace_Nodes.cfg", nd, "nodes", shards=16 if ctx.thorough else 4, timeout=3400, cut="start")
     # sqrt, exp, ln, log: recorded from the real builtins, judged by the fixed-point oracle FTranscend
-    tr = ctx.record("math", "math", ["-n", 1000 if ctx.thorough else 92])
+    tr = ctx.record("math", "math", ["-n", 1000 if ctx.thorough else 108])
     ctx.validate("math-validate", "trace/Trace_Math.tla", "trace/Trace_Math.cfg", tr, "math", shards=16 if ctx.thorough else 12, timeout=3400)
     ctx.selftest_binding("math", "trace/Trace_Math.tla", "trace/Trace_Math.cfg", tr, "math", corrupt)
     return ctx.finish(
